@@ -284,11 +284,36 @@ OpOk(e) ==
 \* operations that never return an error and never panic, whatever their arguments
 NoErr(e) == C("C14", "no.err", e.err = 0)
 
+\* the property an operation primarily belongs to (an unexpected panic is a failure of that property, too)
+MainProp(op) ==
+    CASE op \in {"Point.ScalarMult", "Point.ScalarBaseMult", "Point.VarTimeDoubleScalarBaseMult", "Point.MultiScalarMult",
+                 "Point.VarTimeMultiScalarMult"} -> "C01"
+      [] op \in {"Point.Add", "Point.Subtract", "Point.Negate", "Point.MultByCofactor"} -> "C02"
+      [] op = "Point.SetBytes" -> "C04"
+      [] op = "Point.Bytes" -> "C05"
+      [] op = "Point.Equal" -> "C06"
+      [] op \in {"Scalar.Add", "Scalar.Subtract", "Scalar.Negate", "Scalar.Multiply", "Scalar.MultiplyAdd", "Scalar.Invert", "Scalar.Equal"} -> "C07"
+      [] op \in {"Scalar.Bytes", "Scalar.SetCanonicalBytes", "Scalar.SetUniformBytes", "Scalar.SetBytesWithClamping"} -> "C08"
+      [] op \in {"Elem.Add", "Elem.Subtract", "Elem.Negate", "Elem.Multiply", "Elem.Square", "Elem.Mult32", "Elem.Invert", "Elem.Pow22523",
+                 "Elem.Absolute", "Elem.Zero", "Elem.One"} -> "C09"
+      [] op \in {"Elem.Bytes", "Elem.SetBytes", "Elem.SetWideBytes", "Elem.Equal", "Elem.IsNegative", "Elem.Select", "Elem.Swap"} -> "C10"
+      [] op \in {"Point.ExtendedCoordinates", "Point.SetExtendedCoordinates"} -> "C13"
+      [] op = "Elem.SqrtRatio" -> "C16"
+      [] op = "Point.BytesMontgomery" -> "C17"
+      [] op \in {"NewIdentityPoint", "NewGeneratorPoint", "NewScalar"} -> "C19"
+      [] OTHER -> "C11"
+IsFallibleSetter(op) == op \in {"Point.SetBytes", "Point.SetExtendedCoordinates", "Scalar.SetCanonicalBytes", "Scalar.SetUniformBytes",
+                               "Scalar.SetBytesWithClamping", "Elem.SetBytes", "Elem.SetWideBytes"}
+
 Conjuncts(e) ==
     LET cont == UN({ C("INFRA", "continuity", n \in dirty \/ regs[n] = e.pre[n]) : n \in Involved(e) })
         dlt  == C("C19", "frame.others", e.delta = <<>>)
         pan  == C("C15", "panic.iff", (e.panic = 1) <=> ExpectPanic(e))
-    IN  cont \cup dlt \cup pan \cup PostInv(e)
+        unexp == IF e.panic = 1 /\ ~ExpectPanic(e)
+                 THEN C(MainProp(e.op), "unexpected.panic", FALSE)
+                      \cup (IF IsFallibleSetter(e.op) THEN C("C14", "unexpected.panic", FALSE) ELSE {})
+                 ELSE {}
+    IN  cont \cup dlt \cup pan \cup unexp \cup PostInv(e)
         \cup (IF e.panic = 1
               THEN Frame(e, IF e.recv = "" THEN {} ELSE {e.recv})       \* nothing is demanded of the receiver
               ELSE IF ExpectPanic(e) THEN {} ELSE OpOk(e))
